@@ -844,8 +844,6 @@ Variable cnext : cst -> N * cst.
 Variable H : list N -> list N.
 Variable blk : list N -> list N.
 Variable snappy_enc : list N -> list N.
-Hypothesis blk_len : forall x, length (blk x) = 16%nat.
-Hypothesis H_len : forall m, length (H m) = 32%nat.
 
 Local Notation write_frame := (write_frame cst cnext (list N) (@app N) H blk).
 Local Notation write_msgs := (write_msgs cst cnext (list N) (@app N) H blk snappy_enc).
@@ -911,6 +909,9 @@ Proof.
   inversion Hw; subst. pose proof (write_frame_mac_lt _ _ _ _ _ Hc E1).
   pose proof (write_msgs_mac_le sn _ _ _ _ _ Hok' E2). lia.
 Qed.
+
+Hypothesis blk_len : forall x, length (blk x) = 16%nat.
+Hypothesis H_len : forall m, length (H m) = 32%nat.
 
 (* "no collision of the truncated hash on these two inputs" *)
 Definition no_collision (a b : list N) : Prop := firstn 16 (H a) = firstn 16 (H b) -> a = b.
@@ -1038,6 +1039,12 @@ Proof.
   intros H1 H2 H3. unfold Rlpx.initiator_finish. rewrite H1, H2, H3. reflexivity.
 Qed.
 
+End HandshakeProofs.
+
+Section HandshakeTamper.
+Variable key : Type.
+Variable ecies_dec : key -> list N -> list N -> option (list N).
+Local Notation read_msg := (read_msg key ecies_dec).
 (* modified handshake packets: under ciphertext integrity of ECIES at the honest
    packet (no other ciphertext / size prefix decrypts under this key), any packet
    that differs from the honest one is rejected by readMsg *)
@@ -1062,7 +1069,7 @@ Proof.
   - rewrite (Hint _ _ _ E). eexists; reflexivity.
 Qed.
 
-End HandshakeProofs.
+End HandshakeTamper.
 
 (* ---- the executable instances: FIPS-197 appendix C vectors for Net/Aes.v ---- *)
 Definition aes_vectors_ok : bool :=
